@@ -159,20 +159,23 @@ func vp8Class(info string) string {
 //	a  segment values are absolute when segmentation is enabled without segment data
 //	c  the segment-adjusted loop-filter level is not clamped to 0..63 before the ref/mode deltas
 //	s  inverse DCTs handed to the SSE2/AVX2 kernels wrap in 16-bit lanes (matters only for coefficients beyond 12 bits)
+//	n  "macroblock has no coefficients" (inner edges unfiltered) is decided by VALUE (libwebp: blocks whose
+//	   only tokens are explicit zeros count as empty), the specification decides by TOKEN (end-of-block position)
 var vp8ConvNames = map[byte]string{
 	'k': "inner-edges-filtered-unless-skip-flag",
 	'a': "segment-values-absolute-without-segment-data",
 	'c': "lf-level-not-clamped-after-segment",
 	's': "idct-16bit-simd-lanes",
+	'n': "inner-skip-by-value",
 }
 
 var vp8Convs = func() []struct{ flag, name string } {
 	var out []struct{ flag, name string }
-	letters := "kacs"
-	for n := 1; n <= 4; n++ { // fewer deviations first
-		for m := 1; m < 16; m++ {
+	letters := "kacsn"
+	for n := 1; n <= len(letters); n++ { // fewer deviations first
+		for m := 1; m < 1<<uint(len(letters)); m++ {
 			cnt, f, nm := 0, "", ""
-			for b := 0; b < 4; b++ {
+			for b := 0; b < len(letters); b++ {
 				if m&(1<<uint(b)) != 0 {
 					cnt++
 					f += string(letters[b])
@@ -481,6 +484,55 @@ func vp8EncCases(seed uint64, tier string) []func() (vp8Case, []byte) {
 		o.FilterType = (k + 1) % 2
 		gens = append(gens, mk(0x900000+uint64(k), 320, 320, []int{ClsPhoto, ClsNoise, ClsGradient, ClsPal16}[k%4], AlphaNone, o))
 	}
+	// wide rows and threshold sizes (thresholds.go): widths 1023,1024,1025,1100,2047,2048,2049,4097 x heights
+	// 1..4 (row buffers / stack scratch of the upsampler: heights 1..4 = single line, one line pair, pair +
+	// single last line, two pairs) and pictures on the other numeric thresholds of the code; flat / gradient /
+	// sparse content so that the payloads stay small; 2 of 3 with an alpha plane (leg (e) then compares the
+	// NRGBA output with the specification's upsampling)
+	{
+		var tcs []ThresholdCase
+		k := 0
+		for wi, w := range WideWidths {
+			for _, h := range WideHeights {
+				k++
+				if tier == "thorough" || (k+int(seed))%2 == 0 {
+					tcs = append(tcs, ThresholdCase{W: w, H: h, T: Threshold{Value: []int{1024, 1024, 1024, 1024, 2048, 2048, 2048, 4096}[wi], Unit: "width"}})
+				}
+			}
+		}
+		nDraw := 10
+		if tier == "thorough" {
+			nDraw = 1 << 20
+		}
+		tcs = append(tcs, DrawThresholdCases(seed, 0x04, nDraw, ThresholdFilter{MaxPixels: 120000, MinValue: 200})...)
+		for k, tc := range tcs {
+			tc := tc
+			id := 0x920000 + uint64(k)
+			gens = append(gens, func() (vp8Case, []byte) {
+				r := NewRNG(seed, 0x11000000+id)
+				kind := r.Intn(NumCheapClasses)
+				acls := []int{AlphaNone, AlphaGradient, AlphaBinary, AlphaSparse, AlphaSemiFlat, AlphaNone}[r.Intn(6)]
+				img := GenCheapImage(r, tc.W, tc.H, kind, acls)
+				o := webp.DefaultOptions()
+				o.Quality = float32(qs[r.Intn(len(qs))])
+				o.Method = r.Intn(7)
+				o.Segments = 1 + r.Intn(4)
+				o.Partitions = r.Intn(4)
+				o.FilterStrength = fss[r.Intn(len(fss))]
+				o.FilterSharpness = shs[r.Intn(len(shs))]
+				o.FilterType = r.Intn(2)
+				o.AlphaCompression = r.Intn(2)
+				o.AlphaFiltering = r.Intn(3)
+				desc := fmt.Sprintf("%s %s q=%d m=%d seg=%d parts=%d fs=%d sharp=%d ft=%d", cheapDesc(tc.W, tc.H, kind, acls), tc.Tag(), int(o.Quality), o.Method,
+					o.Segments, o.Partitions, o.FilterStrength, o.FilterSharpness, o.FilterType)
+				var buf bytes.Buffer
+				if err := webp.Encode(&buf, img, o); err != nil {
+					return vp8Case{kind: "encfail", desc: desc + ": " + err.Error()}, nil
+				}
+				return vp8Case{payload: vp8Payload(buf.Bytes()), kind: "enc", desc: desc}, buf.Bytes()
+			})
+		}
+	}
 	// token partitions of 64 KiB and more (the 24-bit entries of the partition-size table need their
 	// third byte): a 512x512 noise picture at quality 95 has about 240 KB of tokens. Quick: 2
 	// partitions; thorough: 2, 4 and 8 (quality 100 so that every one of 4 partitions is that large).
@@ -596,7 +648,7 @@ func vp8TablesLine() string {
 }
 
 func suiteVP8(rep *Report) error {
-	rep.Rule = "frames: (a) VP8 payloads of webp.Encode lossy outputs over colour class x size (1x1 … 100x20, 320x320, and a 512x512 noise picture at quality 95 with 2 token partitions of > 64 KiB each; thorough: also 4 and 8 partitions at quality 100) x Quality {0,20,50,75,90,100} x Method 0..6 x Segments 1..4 x Partitions 0..3 x FilterStrength {0,20,60,100} x FilterSharpness {0,3,7} x FilterType {0,1} x SNS {0,50,100} (quality x method walked, the rest drawn); (b) lossy testdata files and corpus/vp8/*.hex; (c) frames of a random VP8 writer (segment maps with absolute/delta quantiser and filter values, both filters with deltas and any sharpness, 1/2/4/8 partitions - 1 frame in 40 (thorough: 300) of those with several partitions has a NON-final partition padded with unread bytes to a declared size of 0x010000 … 0x020001, so that the 24-bit size entries use their third byte -, skip flags, all 5/10/4 intra modes uniformly, arbitrary tokens incl. categories 3-6 and zero runs, probability updates); (d) mutations of (a)-(c): bit flips, byte sets, truncations, fills, appended bytes, first-partition-size edits. Each frame is decoded by lossy.DecodeFrame (planes cropped as the public API does) and by the Lean spec decoder Webp.Spec.VP8.decode; lines (ok w h plane digests | err) are compared: ok-vs-err and planes; (e) lossy+alpha encoder outputs: webp.Decode NRGBA pixels vs the spec's fancy upsampling + YUV->RGB (op vp8nrgba) of the same VP8 payload with Go's decoded alpha plane; (f) constant tables Go vs Lean (op vp8tables); every Go decode runs under a 20 s deadline: a call that does not return is a finding (C05 hang:DecodeFrame, and C04 when the spec decodes the frame) and ends the suite. non-trivial = the spec decoder got past the 10-byte frame header; distinct = FNV of the payload"
+	rep.Rule = "frames: (a) VP8 payloads of webp.Encode lossy outputs over colour class x size (1x1 … 100x20, 320x320, widths 1023,1024,1025,1100,2047,2048,2049,4097 x heights 1..4 and ~10 pictures on the numeric thresholds of the code - thresholds.go - with flat/gradient/sparse content, 2 of 3 with alpha, and a 512x512 noise picture at quality 95 with 2 token partitions of > 64 KiB each; thorough: also 4 and 8 partitions at quality 100) x Quality {0,20,50,75,90,100} x Method 0..6 x Segments 1..4 x Partitions 0..3 x FilterStrength {0,20,60,100} x FilterSharpness {0,3,7} x FilterType {0,1} x SNS {0,50,100} (quality x method walked, the rest drawn); (b) lossy testdata files and corpus/vp8/*.hex; (c) frames of a random VP8 writer (segment maps with absolute/delta quantiser and filter values, both filters with deltas and any sharpness, 1/2/4/8 partitions - 1 frame in 40 (thorough: 300) of those with several partitions has a NON-final partition padded with unread bytes to a declared size of 0x010000 … 0x020001, so that the 24-bit size entries use their third byte -, skip flags, all 5/10/4 intra modes uniformly, arbitrary tokens incl. categories 3-6 and zero runs, probability updates); (d) mutations of (a)-(c): bit flips, byte sets, truncations, fills, appended bytes, first-partition-size edits. Each frame is decoded by lossy.DecodeFrame (planes cropped as the public API does) and by the Lean spec decoder Webp.Spec.VP8.decode; lines (ok w h plane digests | err) are compared: ok-vs-err and planes; (e) lossy+alpha encoder outputs: webp.Decode NRGBA pixels vs the spec's fancy upsampling + YUV->RGB (op vp8nrgba) of the same VP8 payload with Go's decoded alpha plane; (f) constant tables Go vs Lean (op vp8tables); every Go decode runs under a 20 s deadline: a call that does not return is a finding (C05 hang:DecodeFrame, and C04 when the spec decodes the frame) and ends the suite. non-trivial = the spec decoder got past the 10-byte frame header; distinct = FNV of the payload"
 	v := &vp8Run{rep: rep, kept: map[string][]Finding{}, totals: map[string]int{}, phase: map[string]float64{}}
 	finish := func() error {
 		rep.Extra["finding_totals"] = v.totals
@@ -648,6 +700,9 @@ func suiteVP8(rep *Report) error {
 			rep.Count("enc:failed")
 			rep.Notes = append(rep.Notes, "encode failed or no VP8 chunk: "+c.desc)
 			continue
+		}
+		if k := strings.Index(c.desc, "threshold:"); k >= 0 {
+			rep.Count(strings.Fields(c.desc[k:])[0])
 		}
 		valid = append(valid, c)
 	}
